@@ -200,9 +200,11 @@ var bitSizes = []uint64{0, 1, 2, 3, 7, 8, 9, 15, 16, 17, 31, 32, 33, 255, 256, 2
 var bigLimits = []uint64{1 << 20, 1 << 32, 1 << 40, 1<<40 - 1, 1<<40 + 1}
 
 type gen struct {
-	r       *rand.Rand
-	noBool  bool // never produce List/Vector[bool] (kept in its own stream)
-	maxElem int  // cap on the number of elements a generated value may hold
+	r         *rand.Rand
+	noBool    bool // never produce List/Vector[bool] (kept in its own stream)
+	maxElem   int  // cap on the number of elements a generated (complex) collection may hold
+	maxPacked int  // cap for packed basic lists (0: 4*32+2 so that chunk boundaries are reached)
+	maxBits   int  // cap for bitlists (0: 3*256+2)
 }
 
 func (g *gen) pick(xs []uint64) uint64 { return xs[g.r.Intn(len(xs))] }
@@ -319,6 +321,17 @@ func (g *gen) uintVal(w uint64) *Val {
 // seqLen picks a collection length for a limit: empty, one, full (if small), boundary, random.
 func (g *gen) seqLen(limit uint64, perChunk uint64) int {
 	capN := uint64(g.maxElem)
+	if perChunk == 256 {
+		capN = uint64(g.maxBits)
+		if g.maxBits == 0 {
+			capN = 3*256 + 2
+		}
+	} else if perChunk > 0 {
+		capN = uint64(g.maxPacked)
+		if g.maxPacked == 0 {
+			capN = 4*perChunk + 2
+		}
+	}
 	if limit < capN {
 		capN = limit
 	}
